@@ -33,6 +33,8 @@ def build(d):
     if k == "S":
         return np.float64(d[1]) if d[2] == "f" else np.int64(d[1])
     if k == "V":
+        if len(d) > 2 and d[2] == "i":
+            return np.array([int(v) for v in d[1]])          # integer dtype, as np.array([2, 3, 5])
         return np.array(d[1], dtype=float)
     if k == "Z":
         return np.array(float(d[1]))
@@ -65,11 +67,28 @@ def canon_impl(r):
     return ("ok", "other", repr(type(r)), None)
 
 
+KEEP = []          # (real result object, canonical value when produced, case) — re-read later: results must not alias
+
+
 def run_impl(op, l, r):
     try:
-        return canon_impl(OPS[op](build(l), build(r)))
+        L, R = build(l), build(r)
+        res = OPS[op](L, R)
+        c = canon_impl(res)
+        if len(KEEP) < 4000:
+            KEEP.append((res, c, (op, l, r), (L, canon_opd(L)), (R, canon_opd(R))))
+        return c
     except BaseException as e:  # noqa
         return ("err", err_kind(e))
+
+
+def canon_opd(x):
+    I = _I()
+    if isinstance(x, I):
+        return ("I", np.array(x.lo, dtype=float).tolist(), np.array(x.hi, dtype=float).tolist())
+    if isinstance(x, np.ndarray):
+        return ("V", x.tolist())
+    return ("N", x)
 
 
 def parse_model(s):
@@ -212,7 +231,10 @@ def gen_cases(ctx):
             o = ("S", int(x), "i")
         elif kind == "V":
             m = rng.choice([n, n, 1, 2]) if ivl[0] == "A" else rng.choice([1, 2, 3])
-            o = ("V", [float(rng.choice(nums)) for _ in range(m)])
+            if rng.random() < 0.35:      # integer-dtype ndarray (np.reciprocal, // and in-place ops behave differently there)
+                o = ("V", [rng.choice([-3, -2, 2, 3, 5, 1]) for _ in range(m)], "i")
+            else:
+                o = ("V", [float(rng.choice(nums)) for _ in range(m)])
         elif kind == "Z":
             o = ("Z", float(x))
         else:
@@ -256,6 +278,20 @@ def gen_cases(ctx):
             cases.append(("random-num-right", op, ("I", a, b), ("N", rd()), False))
         else:
             cases.append(("random-num-left", op, ("N", rd()), ("I", a, b), False))
+    # 4b. thin but NOT degenerate operands (relative width 1e-9..1e-5, tiny magnitudes): an implementation that
+    #     treats "close" as "equal" (np.allclose / np.isclose) collapses them to points
+    for _ in range(ctx.scale(200, 3000)):
+        base = rng.choice([2e-9, 1.0, 1500.0, 2.1e5, -3.0, -7e-8])
+        rel = rng.choice([1e-9, 1e-7, 3e-6, 8e-6, 3.0])
+        a0 = base; b0 = base + abs(base) * rel
+        thin = ("I", min(a0, b0), max(a0, b0))
+        c, d = riv()
+        other = rng.choice([("I", c, d), ("I", 2.0, 3.0), ("A", [c, 2.0], [d, 3.0])])
+        op = rng.choice(list(OPS))
+        if rng.random() < 0.5:
+            cases.append(("thin", op, other, thin, False))
+        else:
+            cases.append(("thin", op, thin, other, False))
     # 5. malformed: mismatched shapes (compared on error kind only)
     for _ in range(ctx.scale(60, 600)):
         n, m = rng.choice([(2, 3), (3, 2), (2, 5), (4, 3)])
@@ -330,6 +366,26 @@ def run(ctx: core.Check, cases=None):
                      f"{l} {op} {r}: implementation gives {_js(impl)}, exact set image is {_js(exp)}")
         if len(ctx.samples) < 5 and stream.startswith(("grid-aa", "random-ss", "kinds")):
             ctx.sample({"stream": stream, "op": op, "l": l, "r": r, "impl": _js(impl), "model": rep})
+    recheck_kept(ctx)
+
+
+def recheck_kept(ctx):
+    """results produced earlier must still read the same (no shared work buffers), operands must be unchanged"""
+    n = 0
+    for res, c0, (op, l, r), (L, cl), (R, cr) in KEEP:
+        n += 1
+        c1 = canon_impl(res)
+        if c1 != c0:
+            ctx.fail({"op": op, "lkind": l[0], "rkind": r[0], "symptom": "result-changed-later", "call": "Interval operator (sequence)"},
+                     {"op": op, "l": l, "r": r, "when_produced": _js(c0), "read_again_later": _js(c1)},
+                     f"the result of {l} {op} {r} changed after later operations (was {_js(c0)}, now {_js(c1)}): results share memory")
+            break
+        if canon_opd(L) != cl or canon_opd(R) != cr:
+            ctx.fail({"op": op, "lkind": l[0], "rkind": r[0], "symptom": "operand-mutated", "call": "Interval operator (sequence)"},
+                     {"op": op, "l": l, "r": r}, f"an operand of {l} {op} {r} was modified by the operation")
+            break
+    ctx.bump("results-reread-later", n)
+    KEEP.clear()
 
 
 def _gen(out):
